@@ -289,6 +289,24 @@ func (vc *VC) checkFrame(st *State, pos token.Pos, ord int) {
 				}
 			}
 		}
+		if strings.HasPrefix(m, "*") {
+			// pointee of a pointer to a non-struct value
+			if e, err := parseSpecExpr(m[1:]); err == nil {
+				bv := vc.specEval(vc.entry, vc.entry, e, nil, nil)
+				if bv.Ty != nil {
+					if pt, ok := bv.Ty.Underlying().(*types.Pointer); ok {
+						key := "ptr:" + vc.sortOf(pt.Elem())
+						a := allowed[key]
+						if a == nil {
+							a = &allow{}
+							allowed[key] = a
+						}
+						a.objs = append(a.objs, bv.S)
+					}
+				}
+			}
+			continue
+		}
 		k := strings.LastIndex(m, ".")
 		if k < 0 {
 			continue
@@ -420,7 +438,14 @@ func (vc *VC) scanBoxedAndCaptured(body *ast.BlockStmt) {
 			if x.Op == token.AND {
 				if id, ok := x.X.(*ast.Ident); ok {
 					if o, ok := vc.eng.info.ObjectOf(id).(*types.Var); ok && !o.IsField() {
+						box := false
 						if nn, _ := namedStructOf(o.Type()); nn != nil && vc.eng.inPkg(nn) {
+							box = true
+						}
+						if at, ok := o.Type().Underlying().(*types.Array); ok && isByteArraySmall(at) {
+							box = true // small byte arrays are Int values; their box lives in the generic pointee heap
+						}
+						if box {
 							if _, done := vc.boxed[o]; !done {
 								vc.boxed[o] = types.NewVar(o.Pos(), o.Pkg(), "&"+o.Name(), types.NewPointer(o.Type()))
 							}
